@@ -607,6 +607,13 @@ func c11InProcess(c *vk.Ctx, r *rand.Rand) bool {
 			started <- struct{}{}
 			o := runRelayCase(env, wr, cases[i])
 			c.Eval("in-process|listener-closed-mid-relay|" + cases[i].Mode)
+			if o.TargetConns == 0 && o.Rec != nil && o.Rec.Snap().Status() == "ERR_CONNECT" {
+				// this exchange had not reached its target yet when the listener closed (the harness was
+				// slow): its dial was cancelled, which is the documented behaviour, not a relay cut short
+				c.Inconclusive("in-process: exchange was not relaying yet when the listener closed")
+				results[i] = true
+				return
+			}
 			results[i] = judgeRelay(c, "C11/in-process", cases[i], o)
 		}(i)
 	}
